@@ -1,6 +1,7 @@
 (* Completeness of the validator model (Taste/Taste.v): every well-formed
-   plotfile (Plotfile/Abstract.v) is accepted under every option set that
-   does not reach the (broken) binary-data branch.
+   plotfile (Plotfile/Abstract.v) is accepted under every option set; for the
+   option sets that reach the binary-data check, provided that check passes on
+   the opened levels (discharged in Taste/DataProofs.v).
    Standard library only, no axioms. *)
 From AK Require Import Base.Prelude Bytes.Text Bytes.FabHeader Bytes.FabHeaderProofs
   Bytes.BinFile Reader.Select Reader.BoxRead Reader.Level Reader.ReadSpec
@@ -8,19 +9,6 @@ From AK Require Import Base.Prelude Bytes.Text Bytes.FabHeader Bytes.FabHeaderPr
   Plotfile.TextHeader Plotfile.HeaderSpec Plotfile.HeaderProofs
   Taste.Taste Taste.TasteSpec Plotfile.Abstract.
 From Coq Require Import Permutation Sorted.
-
-(* ------------------------------------------------------------------ *)
-(** * The binary-data branch always answers "bad" *)
-
-Theorem taste_binary_data_branch : forall o limit d,
-  (t_data o && negb (t_headers o && t_shape o)) = true -> taste_good o limit d = false.
-Proof.
-  intros o limit d H. unfold taste_good.
-  destruct (pd_header d) as [ht|]; [|reflexivity].
-  destruct (open_header ht limit) as [op|]; [|reflexivity].
-  destruct (open_levels d op (t_data o)) as [lvs|]; [|reflexivity].
-  rewrite H. cbn [negb]. apply andb_false_r.
-Qed.
 
 (* ------------------------------------------------------------------ *)
 (** * Generic list facts *)
@@ -671,20 +659,20 @@ Qed.
 (* ------------------------------------------------------------------ *)
 (** * Completeness *)
 
-Theorem taste_complete : forall (pf : plotfile) (o : topts) (limit : option Z) (lim : Z),
+Theorem taste_complete_gen : forall close (pf : plotfile) (o : topts) (limit : option Z) (lim : Z),
   wf_plotfile pf ->
   eff_limit (g_max_level (pf_g pf)) limit = Some lim -> 0 <= lim ->
-  (t_data o && negb (t_headers o && t_shape o)) = false ->
-  taste_good o limit (pf_disk pf) = true.
+  ((t_data o && negb (t_headers o && t_shape o)) = true ->
+   forallb (fun lc => check_data close (pf_nfields pf) (fst lc) (snd lc)) (opened_levels pf lim (t_data o)) = true) ->
+  taste_good close o limit (pf_disk pf) = true.
 Proof.
-  intros pf o limit lim Hwf Heff Hlim Hbr.
+  intros close pf o limit lim Hwf Heff Hlim Hbr.
   unfold taste_good.
   change (pd_header (pf_disk pf))
     with (Some (print_header (pf_g pf) (map pl_boxes (pf_levels pf)))).
   cbv beta iota.
   rewrite (open_header_complete pf limit lim Hwf Heff Hlim).
   rewrite (open_levels_complete pf lim (t_data o) Hwf).
-  rewrite Hbr. cbn [negb].
   replace (blen (o_keys (opened_of pf lim))) with (pf_nfields pf)
     by (symmetry; apply (nfields_keys pf)).
   destruct Hwf as (Hg & Hlen & Hnd & Hlv). rewrite Forall_forall in Hlv.
@@ -710,8 +698,9 @@ Proof.
     destruct (t_data o); [|rewrite check_shape_strip];
       apply check_shape_complete; assumption. }
   rewrite HS, HH, HP.
-  destruct (t_headers o), (t_shape o); reflexivity.
+  destruct (t_data o && negb (t_headers o && t_shape o)) eqn:E.
+  - rewrite (Hbr eq_refl). destruct (t_headers o), (t_shape o); reflexivity.
+  - destruct (t_headers o), (t_shape o); reflexivity.
 Qed.
 
-Print Assumptions taste_complete.
-Print Assumptions taste_binary_data_branch.
+Print Assumptions taste_complete_gen.
